@@ -143,13 +143,19 @@ def case_random(ctx, rng, wd, l=None):
     N = len(f0)
     uneven = T == 3 and rng.random() < 0.4
     ts = [0, 100, 700] if uneven else [100 * t for t in range(T)]
-    snaps = gc.snapshots_from([gc.snapshot_from(cell, (f0 + (rng.normal(0, 0.03, f0.shape) if t else 0)) % 1.0, np.ones(N, dtype=int), ts[t]) for t in range(T)])
+    # a sheared trajectory (equal edge lengths, an own tilt per frame) is a valid input: every frame has its own cell matrix
+    shear = cellkind == "tri" and T > 1 and rng.random() < 0.5
+    cells = [cell] + [gc.retilt(rng, cell) if shear else cell for _ in range(T - 1)]
+    snaps = gc.snapshots_from([gc.snapshot_from(cells[t], (f0 + (rng.normal(0, 0.03, f0.shape) if t else 0)) % 1.0, np.ones(N, dtype=int), ts[t]) for t in range(T)])
     H = cell["H"]
+    Hs = [c["H"] for c in cells]
+    if shear:
+        cellkind = "tri/sheared"
     ppp = np.ones(3, dtype=int) if nlkind == "voronoi" else gc.random_mask(rng, 3, allow_open=False)
-    ra = geom.agreement_radius(H, ppp)
+    ra = min(geom.agreement_radius(Hf, ppp) for Hf in Hs)
     fn = os.path.join(wd, "nl.dat")
     fw = None
-    tables = [geom.pair_table(s.positions, H, ppp)[1] for s in snaps.snapshots]
+    tables = [geom.pair_table(s.positions, Hf, ppp)[1] for s, Hf in zip(snaps.snapshots, Hs)]
     if min(float(np.min(t + np.eye(N) * 9)) for t in tables) < 1e-3:
         return
     if nlkind == "nnearest":
@@ -192,7 +198,7 @@ def case_random(ctx, rng, wd, l=None):
         return
     maxcn = max(len(x) for ll in lists for x in ll)
     Nmax = max(30, maxcn + 1)
-    info = lambda: {"l": l, "nl": nlkind, "N": N, "T": T, "cell": cellkind, "H": H, "ppp": ppp, "weights": bool(fw),  # noqa: E731
+    info = lambda: {"l": l, "nl": nlkind, "N": N, "T": T, "cell": cellkind, "H": Hs, "ppp": ppp, "weights": bool(fw),  # noqa: E731
                     "positions": [s.positions for s in snaps.snapshots] if N <= 14 else "omitted", "lists": lists if N <= 14 else "omitted"}
     key = f"boo_3d/l{l}" if l > 10 else "boo_3d"
     ok, b = ctx.call(key, boo_3d, snaps, l, fn, fw, ppp, Nmax, data=info)
@@ -205,7 +211,7 @@ def case_random(ctx, rng, wd, l=None):
     q = np.zeros((T, N, 2 * l + 1), dtype=complex)
     Q = np.zeros_like(q)
     for t in range(T):
-        q[t], Q[t], mb = ref_qlm(snaps.snapshots[t].positions, H, ppp, lists[t], weights[t] if weights else None, l)
+        q[t], Q[t], mb = ref_qlm(snaps.snapshots[t].positions, Hs[t], ppp, lists[t], weights[t] if weights else None, l)
         if mb >= ra:
             ctx.skip("qlm")
             return
@@ -294,7 +300,7 @@ def case_random(ctx, rng, wd, l=None):
             off = ~np.eye(N, dtype=bool)
             relaxed = np.zeros(nb, dtype=bool)
             for t in range(T):
-                _v, dist, _ = geom.pair_table(snaps.snapshots[t].positions, H, ppp)
+                _v, dist, _ = geom.pair_table(snaps.snapshots[t].positions, Hs[t], ppp)
                 Wm = np.real(np.einsum("ia,ja->ij", np.conj(src[t]), src[t]))
                 lo, hi, rel = rgr.histogram_interval(dist[off], w, nb, weights=Wm[off])
                 acc_lo += lo
